@@ -232,8 +232,18 @@ func TestVerifC03(t *testing.T) {
 				{K: "drop", C: 2}, dial(1, 11, 0),
 				{K: "connect", C: 4}, {K: "hello", C: 4, Ht: "resume", Id: &hdIdRef{T: "priv", C: 2}}, dial(1, 12, 0), dial(0, 12, 0),
 				{K: "bye", C: 4}, dial(1, 13, 0)}
+			// a session of the other tenant that is waiting for a resume (connection lost, no bye) is not addressable either:
+			// nothing is queued for it across tenants, by session id or by user id, as message or as control message
+			offl := append(append([]hdOp{}, base...), hdOp{K: "connect", C: 3}, hdOp{K: "hello", C: 3, B: 0, U: 3}, hdJoinOp(1, 1, 1), hdJoinOp(2, 1, 2),
+				hdOp{K: "drop", C: 2},
+				hdOp{K: "msg", C: 1, To: hdToSession(2), Tag: 31}, hdOp{K: "ctl", C: 1, To: hdToSession(2), Tag: 32},
+				hdOp{K: "msg", C: 1, To: &hdRecipient{T: "user", U: 1}, Tag: 33}, hdOp{K: "msg", C: 1, To: &hdRecipient{T: "room"}, Tag: 34},
+				hdOp{K: "connect", C: 4}, hdOp{K: "hello", C: 4, Ht: "resume", Id: &hdIdRef{T: "priv", C: 2}},
+				hdOp{K: "drop", C: 3}, hdOp{K: "msg", C: 1, To: hdToSession(3), Tag: 35},
+				hdOp{K: "connect", C: 5}, hdOp{K: "hello", C: 5, Ht: "resume", Id: &hdIdRef{T: "priv", C: 3}})
 			return []*hdCase{
 				{Id: 0, Mode: 1, Ops: clean},
+				{Id: 7, Mode: 1, Ops: offl},
 				{Id: 4, Mode: 1, Ops: dialout},
 				{Id: 3, Mode: 1, Ops: virt},
 				{Id: 1, Mode: 1, Ops: kick, Finding: "C03/room-session-map/global-kick"},
